@@ -72,6 +72,8 @@ func PanicSites(r *core.Run, sc *Scope, bce *BCE, table string) {
 				}
 				if why, ok := indexSafe(info, f, x); ok {
 					o.Auto("%s", why)
+				} else if why2, ok2 := callersGuarantee(r, f, x); ok2 {
+					o.Auto("%s", why2)
 				} else if !r.Table(table, o) {
 					o.Fail("no dominating guard recognised for this index (%s)", why)
 				}
@@ -437,4 +439,99 @@ func sortSliceLess(info *types.Info, f *ScopeFunc, x *ast.IndexExpr) (string, bo
 		return "", false
 	}
 	return fmt.Sprintf("less function of %s(%s, …): called only with valid indices of that slice", found, core.ExprStr(x.X)), true
+}
+
+// callersGuarantee: an index into a parameter (or into a field of the
+// receiver) of an unexported function is safe when every call of that function
+// in the package happens where the length needed is established for the
+// argument actually passed. Only constant indices and len(x)-k are handled;
+// the parameter must not be reassigned in the function.
+func callersGuarantee(r *core.Run, f *ScopeFunc, x *ast.IndexExpr) (string, bool) {
+	fd, ok := f.Node.(*ast.FuncDecl)
+	if !ok || fd.Name.IsExported() {
+		return "", false
+	}
+	info := f.Pkg.TypesInfo
+	need := 0
+	idx := core.Unparen(x.Index)
+	if k, ok := core.ConstInt(info, idx); ok && k >= 0 {
+		need = int(k) + 1
+	} else if b, ok := idx.(*ast.BinaryExpr); ok && b.Op == token.SUB {
+		if le, ok := lenArg(info, b.X); ok && core.ExprStr(le) == core.ExprStr(x.X) {
+			if k, ok := core.ConstInt(info, b.Y); ok && k >= 1 {
+				need = int(k)
+			}
+		}
+	}
+	if need == 0 {
+		return "", false
+	}
+	root := rootIdentOf(x.X)
+	if root == nil {
+		return "", false
+	}
+	obj := info.Uses[root]
+	// parameter index, or -1 for the receiver
+	pidx, found := -2, false
+	if fd.Recv != nil && len(fd.Recv.List) == 1 && len(fd.Recv.List[0].Names) == 1 && info.Defs[fd.Recv.List[0].Names[0]] == obj {
+		pidx, found = -1, true
+	}
+	i := 0
+	for _, fl := range fd.Type.Params.List {
+		for _, nm := range fl.Names {
+			if info.Defs[nm] == obj {
+				pidx, found = i, true
+			}
+			i++
+		}
+	}
+	if !found || !stableSince(info, f, x.X, fd.Body.Lbrace, x) {
+		return "", false
+	}
+	suffix := strings.TrimPrefix(core.ExprStr(x.X), root.Name) // "" or ".items"
+	self := info.Defs[fd.Name]
+	callers, good, escaped := 0, 0, false
+	core.AllFuncDecls(f.Pkg, func(cfd *ast.FuncDecl) {
+		ast.Inspect(cfd.Body, func(n ast.Node) bool {
+			switch y := n.(type) {
+			case *ast.CallExpr:
+				fn := core.CalleeFunc(info, y)
+				if fn == nil || types.Object(fn) != self {
+					return true
+				}
+				callers++
+				var actual ast.Expr
+				if pidx == -1 {
+					if sel, ok := y.Fun.(*ast.SelectorExpr); ok {
+						actual = sel.X
+					}
+				} else if pidx < len(y.Args) {
+					actual = y.Args[pidx]
+				}
+				if actual == nil {
+					return true
+				}
+				facts := FactsAt(info, cfd.Body, y)
+				if facts.MinLen[core.ExprStr(actual)+suffix] >= need {
+					good++
+				}
+			case *ast.Ident:
+				// the function used as a value: unknown callers
+				if info.Uses[y] == self {
+					if p := core.PathTo(cfd.Body, y); len(p) >= 2 {
+						if c, isCall := p[len(p)-2].(*ast.CallExpr); !isCall || c.Fun != ast.Expr(y) {
+							if s, isSel := p[len(p)-2].(*ast.SelectorExpr); !isSel || s.Sel != y {
+								escaped = true
+							}
+						}
+					}
+				}
+			}
+			return true
+		})
+	})
+	if callers > 0 && callers == good && !escaped {
+		return fmt.Sprintf("%s is unexported and every one of its %d call(s) in the package passes a value whose length is known to be at least %d at the call", fd.Name.Name, callers, need), true
+	}
+	return "", false
 }
